@@ -74,3 +74,4 @@ Print Assumptions C01_maintain_cursor.
 Print Assumptions C01_restart_messages.
 Print Assumptions C01_purge.
 Print Assumptions C01_history_partial.
+Print Assumptions C01_history_nonvacuous.
